@@ -107,38 +107,93 @@ def v1(repo: Repo) -> RuleResult:
     m = get_model(repo)
     pc = m.mod("bitproto/parser.py").classes["Parser"]
 
-    def body_text(name: str) -> Optional[str]:
-        f = pc.methods.get(name)
-        return src_of(f.node) if f else None
+    from .flows import compiler_flow
+    from .normal import V as _V
+    from .normal import show as _sh
 
-    t = body_text("p_const")
-    res.inst(part="constant", action="p_const")
-    if t is None:
-        res.unsure("V1: p_const vanished")
-    else:
-        ok = "name, value = (p[2], p[4])" in t and "value = constant_.unwrap()" in t and "Constant.from_value(value=value, name=name" in t and "constant_ = cast(Constant, value)" in t
-        if not ok:
-            f = Finding("V1", PARSER, pc.methods["p_const"].node.lineno, "Parser.p_const", "", "a constant's value is not (the unwrapped value of) its const_value symbol p[4], or its name not p[2]", witness="const A = 1; const B = A", tag="p_const:value")
+    def paths_of(an: str) -> Optional[List[Any]]:
+        act = g.actions.get(an)
+        if act is None:
+            res.unsure(f"V1: {an} vanished")
+            return None
+        try:
+            fl = compiler_flow(repo, "Parser", "parser.py", inline=lambda n_, f_: n_.startswith("_") and n_ not in ("_lookup_referenced_member", "_get_col"), module_funcs=True)
+            prm = [a_.arg for a_ in act.node.args.args]
+            return [p_ for p_ in fl.run(act.node, {prm[0]: _V("self"), prm[1]: _V("p")}) if p_.done == "return"]
+        except Inconclusive as e:
+            res.unsure(f"V1: {an}: {e}")
+            return None
+
+    def p0(p_: Any) -> Optional[str]:
+        st = [e for e in p_.effects if e.kind == "store" and e.name == "p" and e.args and e.args[0].const_value() == 0]
+        return _sh(st[-1].args[1]) if st else None
+
+    def is_const(p_: Any, subj: str, cls_: str) -> Optional[bool]:
+        for k_, t_ in p_.guards:
+            if k_[0] == "isinstance" and _sh(k_[1]) == subj and k_[2] == (cls_,):
+                return t_
+        return None
+
+    def value_rule(an: str, subj: str, got: Any, p_: Any, cls_: str = "Constant") -> Optional[str]:
+        """the value denoted by symbol `subj`: its unwrapped value when it is a constant, itself otherwise"""
+        c = is_const(p_, subj, cls_)
+        if c is None:
+            return f"`{got}` is used without deciding whether {subj} is a {cls_}"
+        want = f"{subj}.unwrap()" if c else subj
+        return None if got == want else f"`{got}` is used where {subj} is{'' if c else ' not'} a {cls_}, expected `{want}`"
+
+    for an, ctor, part_msg, wit in (("p_const", "Constant", "a constant's value is not (the unwrapped value of) its const_value symbol p[4], or its name not p[2]", "const A = 1; const B = A"), ("p_option", "Option", "an option's value is not its option_value symbol p[4] / its name not p[2]", "option c.name_prefix = \"x\"")):
+        ps = paths_of(an)
+        res.inst(part="constant", action=an, paths=len(ps) if ps is not None else None)
+        if ps is None:
+            continue
+        why = None
+        for p_ in ps:
+            cs = [e for e in p_.effects if e.kind == "call" and e.name == "from_value" and e.recv is not None and _sh(e.recv) == ctor]
+            if len(cs) != 1:
+                why = f"{ctor}.from_value is not called exactly once on a path"
+                continue
+            nm, val = cs[0].kw.get("name"), cs[0].kw.get("value")
+            if nm is None or _sh(nm) != "p[2]":
+                why = f"name={_sh(nm) if nm is not None else None}"
+            if val is None:
+                why = "no value"
+            elif an == "p_const":
+                w = value_rule(an, "p[4]", _sh(val), p_)
+                why = w or why
+            elif _sh(val) != "p[4]":
+                why = f"value={_sh(val)}"
+            if p0(p_) is None or not p0(p_).startswith(f"{ctor}.from_value("):
+                why = why or "the constructed object is not the production's value"
+        if why or not ps:
+            f = Finding("V1", PARSER, g.actions[an].node.lineno, f"Parser.{an}", why or "", part_msg + (f" ({why})" if why else ""), witness=wit, tag=f"{an}:value")
             f.part = "constant"
             res.bad(f)
-    t = body_text("p_option")
-    res.inst(part="constant", action="p_option")
-    if t is None or not ("name, value = (p[2], p[4])" in t and "Option.from_value(value=value, name=name" in t):
-        f = Finding("V1", PARSER, 0, "Parser.p_option", "", "an option's value is not its option_value symbol p[4] / its name not p[2]", tag="p_option:value")
-        f.part = "constant"
-        res.bad(f)
-    t = body_text("p_option_value")
-    res.inst(part="constant", action="p_option_value")
-    if t is None or "p[0] = p[1].unwrap() if isinstance(p[1], Constant) else p[1]" not in t:
-        f = Finding("V1", PARSER, 0, "Parser.p_option_value", "", "an option value that references a constant is not replaced by that constant's value", witness="const N = 4; option c.struct_packing_alignment = N", tag="p_option_value")
-        f.part = "constant"
-        res.bad(f)
+    ps = paths_of("p_option_value")
+    res.inst(part="constant", action="p_option_value", paths=len(ps) if ps is not None else None)
+    if ps is not None:
+        why = None
+        for p_ in ps:
+            got = p0(p_)
+            why = (value_rule("p_option_value", "p[1]", got, p_) if got is not None else "p[0] is not set") or why
+        if why or not ps:
+            f = Finding("V1", PARSER, 0, "Parser.p_option_value", why or "", "an option value that references a constant is not replaced by that constant's value" + (f" ({why})" if why else ""), witness="const N = 4; option c.struct_packing_alignment = N", tag="p_option_value")
+            f.part = "constant"
+            res.bad(f)
     for an in ("p_constant_reference_for_calculation", "p_constant_reference_for_array_capacity"):
-        t = body_text(an)
-        res.inst(part="constant", action=an)
-        ok = t is not None and "referenced = p[1]" in t and "integer_constant = cast(IntegerConstant, referenced)" in t and "p[0] = integer_constant.unwrap()" in t
-        if not ok:
-            f = Finding("V1", PARSER, 0, f"Parser.{an}", "", "a constant reference does not denote the referenced integer constant's value", witness="const N = 2; message M { byte[N] a = 1 }", tag=f"{an}:unwrap")
+        ps = paths_of(an)
+        res.inst(part="constant", action=an, paths=len(ps) if ps is not None else None)
+        if ps is None:
+            continue
+        why = None
+        for p_ in ps:
+            got = p0(p_)
+            if is_const(p_, "p[1]", "IntegerConstant") is not True:
+                why = "a path returns normally without having established that p[1] is an integer constant"
+            elif got != "p[1].unwrap()":
+                why = f"p[0] = {got}"
+        if why or not ps:
+            f = Finding("V1", PARSER, 0, f"Parser.{an}", why or "", "a constant reference does not denote the referenced integer constant's value" + (f" ({why})" if why else ""), witness="const N = 2; message M { byte[N] a = 1 }", tag=f"{an}:unwrap")
             f.part = "constant"
             res.bad(f)
     uw = m.func("_ast.py", "Constant.unwrap")
